@@ -68,7 +68,7 @@ DIRECTED: list[dict[int, list[tuple[float, str]]]] = [
 ]
 
 
-async def _async_history(seed: int, udp: bool, directed: int | None = None) -> dict[str, Any]:
+async def _async_history(seed: int, udp: bool, directed: int | None = None, real: bool = False) -> dict[str, Any]:
     from easynetwork.exceptions import BusyResourceError, ServerAlreadyRunning, ServerClosedError
     from easynetwork.protocol import DatagramProtocol, StreamProtocol
     from easynetwork.serializers.line import StringLineSerializer
@@ -76,25 +76,49 @@ async def _async_history(seed: int, udp: bool, directed: int | None = None) -> d
 
     rng = random.Random(seed)
     events: list[dict[str, Any]] = []
-    backend = harness.HarnessBackend()
     listeners: list[Any] = []
     import socket
+
+    class RecordingBackend(harness.HarnessBackend):
+        """real=True: the listeners are the ones the asyncio backend builds on real loopback sockets; they are only recorded."""
+
+        async def create_tcp_listeners(self, *args: Any, **kwargs: Any) -> Any:
+            lsts = await super().create_tcp_listeners(*args, **kwargs)
+            if real:
+                listeners.extend(lsts)
+            return lsts
+
+        async def create_udp_listeners(self, *args: Any, **kwargs: Any) -> Any:
+            lsts = await super().create_udp_listeners(*args, **kwargs)
+            if real:
+                listeners.extend(lsts)
+            return lsts
+
+    backend = RecordingBackend()
 
     lsock = socket.socket(socket.AF_INET, socket.SOCK_DGRAM if udp else socket.SOCK_STREAM)
     lsock.bind(("127.0.0.1", 0))
     init_delay = rng.choice([0, 0.5, 1.0])
     teardown_delay = rng.choice([0, 0, 0.75, 1.25])
+    register_first = rng.random() < 0.5
     if directed is not None:
         init_delay, teardown_delay = (1.0, 0) if directed >= 3 else (0, 1.25)
+        register_first = True
 
     async def slow_setup_and_teardown(exit_stack: Any, server: Any) -> None:
-        await asyncio.sleep(init_delay)
-        if teardown_delay:
-            # a tear-down that takes a while: shutdown() calls issued meanwhile must still wait for the end of it
-
-            async def teardown() -> None:
+        # a tear-down that may take a while: shutdown() calls issued meanwhile must still wait for the end of it
+        async def teardown() -> None:
+            if teardown_delay:
                 await server.backend().ignore_cancellation(asyncio.sleep(teardown_delay))
+            ev("svc_down")
 
+        if register_first:
+            # registered before service_init waits: a shutdown() / failure landing inside that wait must still run it
+            ev("svc_init")
+            exit_stack.push_async_callback(teardown)
+        await asyncio.sleep(init_delay)
+        if not register_first:
+            ev("svc_init")
             exit_stack.push_async_callback(teardown)
 
     if udp:
@@ -116,7 +140,8 @@ async def _async_history(seed: int, udp: bool, directed: int | None = None) -> d
             listeners.append(lst)
             return [lst]
 
-        backend.udp_listeners_factory = make
+        if not real:
+            backend.udp_listeners_factory = make
         server: Any = AsyncUDPNetworkServer("127.0.0.1", 0, DatagramProtocol(StringLineSerializer()), H(), backend=backend)
     else:
         from easynetwork.servers.async_tcp import AsyncTCPNetworkServer
@@ -134,7 +159,8 @@ async def _async_history(seed: int, udp: bool, directed: int | None = None) -> d
             listeners.append(lst)
             return [lst]
 
-        backend.tcp_listeners_factory = make_t
+        if not real:
+            backend.tcp_listeners_factory = make_t
         server = AsyncTCPNetworkServer("127.0.0.1", 0, StreamProtocol(StringLineSerializer()), HT(), backend=backend)
 
     def obs() -> dict[str, bool]:
@@ -147,11 +173,27 @@ async def _async_history(seed: int, udp: bool, directed: int | None = None) -> d
         events.append(e)
 
     with_clients = rng.random() < 0.5
-    client_sock = harness.loopback_tcp_pair() if (with_clients and not udp) else None
+    client_sock = harness.loopback_tcp_pair() if (with_clients and not udp and not real) else None
     connected: list[Any] = []
+    real_clients: list[socket.socket] = []
 
     def connect_clients() -> None:
         """Clients of the running server: one whose handler waits for a request, one in the middle of a frame, one UDP peer mid-handler."""
+        if real:
+            addr = server.get_addresses()[0]
+            for kind in ("idle", "half_frame"):
+                c = socket.socket(socket.AF_INET, socket.SOCK_DGRAM if udp else socket.SOCK_STREAM)
+                c.setblocking(False)
+                try:
+                    c.connect((addr.host, addr.port))
+                except BlockingIOError:
+                    pass
+                real_clients.append(c)
+                if udp:
+                    c.send(b"hello\n")
+                elif kind == "half_frame":
+                    asyncio.get_running_loop().call_later(0.05, lambda c=c: c.fileno() != -1 and c.send(b"incomplete requ"))
+            return
         lst = listeners[-1]
         if udp:
             lst.push(b"hello\n", ("10.0.0.9", 9))
@@ -229,6 +271,18 @@ async def _async_history(seed: int, udp: bool, directed: int | None = None) -> d
         ev("probe", observe=True)
         ev("end")
     lsock.close()
+    if real_clients and not udp and events and events[-1]["ev"] == "end":
+        # every connection of a server that stopped serving has been closed by it: the peers read the end of the stream (or a reset)
+        for c in real_clients:
+            try:
+                while c.recv(1024):
+                    pass
+            except BlockingIOError:
+                events[-1] = {"ev": "client_left_open", "a": 0, "out": "", "serving": False, "listening": False}
+            except OSError:
+                pass
+    for c in real_clients:
+        c.close()
     if client_sock is not None:
         # every connection of a server that stopped serving has been closed by it
         await asyncio.sleep(0)
@@ -236,7 +290,11 @@ async def _async_history(seed: int, udp: bool, directed: int | None = None) -> d
             events[-1] = {"ev": "client_left_open", "a": 0, "out": "", "serving": False, "listening": False}
         for s_ in client_sock:
             s_.close()
-    return {"events": events, "meta": f"async {'UDP' if udp else 'TCP'} seed={seed} plans={plans} service_init={init_delay}s teardown={teardown_delay}s connected_clients={with_clients}"}
+    return {
+        "events": events,
+        "meta": f"async {'UDP' if udp else 'TCP'}{' over real loopback sockets' if real else ''} seed={seed} plans={plans} service_init={init_delay}s "
+        f"(tear-down registered {'before' if register_first else 'after'} its wait) teardown={teardown_delay}s connected_clients={with_clients}",
+    }
 
 
 def _listener_extra(sock: Any) -> dict[Any, Any]:
@@ -461,10 +519,11 @@ STANDALONE = [
 ]
 
 
-def _run_one(arg: tuple[int, bool, int | None]) -> dict[str, Any]:
-    seed, udp, directed = arg
+def _run_one(arg: tuple[int, bool, int | None] | tuple[int, bool, int | None, bool]) -> dict[str, Any]:
+    seed, udp, directed = arg[:3]
+    real = len(arg) > 3 and bool(arg[3])
     try:
-        return vloop.run(lambda: _async_history(seed, udp=udp, directed=directed), spin_limit=20000)  # type: ignore[no-any-return]
+        return vloop.run(lambda: _async_history(seed, udp=udp, directed=directed, real=real), spin_limit=20000)  # type: ignore[no-any-return]
     except vloop.VirtualDeadlock as exc:
         return {"events": [dict(EVD, ev="deadlock")], "meta": f"async seed={seed} VirtualDeadlock {exc}"}
 
@@ -481,6 +540,9 @@ def run(chk: Check) -> None:
 
     rec: list[dict[str, Any]] = pmap(_run_one, [(chk.seed * 9973 + i, i % 3 == 2, None) for i in range(250 if quick else 10000)])
     rec += [_run_one((chk.seed + k, udp, k)) for k in range(len(DIRECTED)) for udp in (False, True)]
+    # the same histories on the listeners the asyncio backend builds over real loopback sockets (serve again after a shutdown, ...)
+    rec += pmap(_run_one, [(chk.seed * 7919 + i, i % 2 == 1, None, True) for i in range(80 if quick else 3000)], min_items=40)
+    rec += [_run_one((chk.seed + k, udp, k, True)) for k in range(len(DIRECTED)) for udp in (False, True)]
     for sc in STANDALONE:
         rec.append(_standalone_history(sc))
     slim = [{"events": traces.uniform(t["events"], EVD)} for t in rec]
